@@ -22,7 +22,7 @@ ALL_STATES = ["geo1:" + c for c in CORR1] + ["geo2:" + c for c in CORR2] + ["tab
                                                                                  "single names (row table)", "single names (list)", "single names (array)", "optional sheets all omitted",
                                                                                  "optional sheets all present", "constraints used", "constraints sheet omitted"]
 ALL_STATES += ["mapping table with a purely numeric x or y column", "surface patches read back", "malformed tables given as arguments", "removed name is a substring of another cell", "sign table with row labels other than the points' labels"]
-REQUIRED_STATES = list(ALL_STATES) + ["unknown sheet is a documented sheet name typed with other capitals / a stray blank", "sensors not aligned with a global axis (non-integer direction cosines)"]
+REQUIRED_STATES = list(ALL_STATES) + ["exactly three sensors (square coordinate / direction tables)", "unknown sheet is a documented sheet name typed with other capitals / a stray blank", "sensors not aligned with a global axis (non-integer direction cosines)"]
 RULE = ("sensor sets of 1..12 names; coordinate/direction tables with rows permuted against the name order; mapping tables whose cells are sensor names, constraint "
         "names or 0/NaN; constraint matrices; sign tables in {-1,0,1}; one-based line/surface tables; optional sheets present/absent in every combination; "
         "single-setup name forms (row table, list, array) and multi-setup forms (padded table, list of lists) on real SingleSetup / MultiSetup_PreGER "
@@ -52,6 +52,8 @@ def make_setup(rng, multi, numbered=False):
     from pyoma2.setup import MultiSetup_PreGER, SingleSetup
     if not multi:
         n = int(rng.integers(10, 13)) if numbered else int(rng.integers(1, 13))
+        if getattr(make_setup, "three", False) and not numbered:
+            n = 3
         names = [f"s{int(i)}" for i in rng.permutation(40)[:n]]
         if numbered or rng.random() < 0.35:
             # the usual numbered channel names: one name is a substring of another (ch1 / ch10, r1 / r11, REF1 / REF10)
@@ -93,6 +95,8 @@ def tables1(rng, flat, optional):
     n = len(flat)
     order = [int(i) for i in rng.permutation(n)]
     extra = [f"x{k}" for k in range(int(rng.integers(0, 3)))]
+    if getattr(make_setup, "three", False):
+        extra = []  # exactly three sensors, three table rows: the (3, 3) tables say nothing about their orientation by their shape
     labels = [flat[i] for i in order] + extra
     rng.shuffle(labels)
     coord = pd.DataFrame(rng.integers(-9, 10, (len(labels), 3)).astype(float) + rng.random((len(labels), 3)).round(2), index=pd.Index(labels, name="label"), columns=["x", "y", "z"])
@@ -265,9 +269,16 @@ def patched_reader(tabs):
     return probes.patched(mx, "read_excel_file", lambda path, **k: clone(tabs))
 
 
-def run_geo(ctx, rng, which, by_args):
+def run_geo(ctx, rng, which, by_args, three=False):
     multi = rng.random() < 0.4
-    setup, forms, flat = make_setup(rng, multi)
+    make_setup.three = three
+    if three:
+        multi = False
+        ctx.state("exactly three sensors (square coordinate / direction tables)")
+    try:
+        setup, forms, flat = make_setup(rng, multi)
+    finally:
+        pass
     optional = str(rng.choice(["none", "all", "random"]))
     use_cst = which == 2 and rng.random() < 0.6
     tabs = tables1(rng, flat, optional) if which == 1 else tables2(rng, flat, optional, use_cst)
@@ -569,14 +580,15 @@ def run_artists(ctx, rng):
 
 
 def run_case(ctx, case):
+    make_setup.three = False
     rng = gen.rng_of(case)
     c = case["cls"]
     if c == "geo1":
-        run_geo(ctx, rng, 1, False)
+        run_geo(ctx, rng, 1, False, three=(case["k"] % 16 == 8))
     elif c == "geo2":
         run_geo(ctx, rng, 2, False)
     elif c == "geo1_args":
-        run_geo(ctx, rng, 1, True)
+        run_geo(ctx, rng, 1, True, three=(case["k"] % 16 == 2))
     elif c == "geo2_args":
         run_geo(ctx, rng, 2, True)
     elif c == "corrupt1":
